@@ -1,4 +1,5 @@
 import BridgeVerif.Lemmas.Replica
+import BridgeVerif.Lemmas.ClientThread
 /-!
 # C11 — All replicas of a board agree with the table manager
 
@@ -64,5 +65,22 @@ theorem bundled_client_completes_session (ns ew : Text) (bs : List BoardSetting)
     (hr : Run parties (Net.init (sessionProg ⟨ns, ew, bs.map fun b => (b, bundledDecisions b choose)⟩)) us n') :
     ∃ vs nf, Run parties n' vs nf ∧ AllDone nf ∧ (∀ c, nf.chan c = []) :=
   bundled_session_completes ns ew bs choose us n' hr
+
+/-- **The bundled client as the code writes it.**  `clientReactive` (Model/ClientThread.lean) is `Client.run` / `_deal` /
+`bidding_phase` / `playing_phase` written the way the Python is: it parses the Teams message, every board header, its
+own cards, every relayed call and card, the lead prompts and dummy's cards, keeps its OWN auction and its OWN
+`ObservedPlayingPhase`, decides from those replicas whose turn it is, and sends its systems' decisions as
+`create_bid_message` / `card_str` texts.  Fed what the seat thread sends on its connection in a session with conforming
+players (texts meaning what was decided, proper hands, team names without a quote), it never raises, never blocks, and
+performs exactly the client program of the session model — for every seat, dummy and declarer included. -/
+theorem bundled_client_follows_the_messages (sc : Scenario) (h : sc.boards ≠ []) (p : Seat)
+    (hc : ∀ bd ∈ sc.boards, ConformingAuction bd.1 bd.2 ∧ ConformingPlay bd.1 bd.2 ∧ TextsConform bd.1 bd.2)
+    (hb : BundledTexts sc p)
+    (hd : ∀ bd ∈ sc.boards, PartialDeal bd.1.deal ∧ ∀ q, (bd.1.deal q).length = 13)
+    (hn : NameOK sc.nsName ∧ NameOK sc.ewName) :
+    clientReactive p (scenarioOwnCalls sc p) (scenarioOwnCards sc p)
+        (sendsOn (Chan.s2c p) (sessionProg sc (.seat p)))
+      = some (sessionProg sc (.client p)) :=
+  clientReactive_session sc h p hc hb hd hn
 
 end Bridge.C11
